@@ -5,7 +5,7 @@ Import ListNotations.
 From Osmo Require Import Base.DecModel CL.CLPool CL.CLSwap CL.CLStep CLR.Accum CLR.Rewards CLR.RSwap CLR.RStep C07.LP
   C08.Proj C08.Telescope C08.View C08.Static C08.Ops C08.OpInside C08.SwapTrace C08.Crux C08.Check
   C08.Claim C08.Conseq C08.Frame C08.Never C08.SwapWf C08.Dom C08.StaticOk C08.Final
-  C07.Base C08.Paid C08.PaidOps C08.PaidSwap C08.PaidHist C08.Modify.
+  C07.Base C08.Paid C08.PaidOps C08.PaidSwap C08.PaidHist C08.Modify C08.Twins.
 Open Scope Z_scope.
 
 (* ---- the reward model extends the shared pool model conservatively ---- *)
@@ -279,4 +279,67 @@ Proof.
   intro rs. let v := eval vm_compute in rs in assert (E : rs = v) by (vm_compute; reflexivity). rewrite E.
   eexists. eexists. eexists. eexists. split; [vm_compute; reflexivity|]. split; [vm_compute; reflexivity|].
   split; [vm_compute; discriminate|]. split; [vm_compute; reflexivity|]. split; [vm_compute; reflexivity|]. split; vm_compute; reflexivity.
+Qed.
+
+(* ==== twins and k-multiples over histories (spread rewards; C08/Twins.v) ==== *)
+(* a position's spread-reward record is written only by a withdrawal from / add to / collect on that position *)
+Theorem C08_record_frame : forall ops rs id, RInv rs -> hist_untouched ops id = true -> id < s_next_id (r_base rs) ->
+  acc_get (rw_spread (r_rw (rrun rs ops))) id = acc_get (rw_spread (r_rw rs)) id /\ id < s_next_id (r_base (rrun rs ops)).
+Proof. exact run_rec_frame. Qed.
+Print Assumptions C08_record_frame.
+
+(* two creations in a row on the same range: same snapshot, nothing unclaimed *)
+Theorem C08_created_together_same_snapshot : forall rs o1 a0 a1 m0 m1 lo hi rs1 c1 o2 b0 b1 n0 n1 rs2 c2, PI rs ->
+  r_create rs o1 a0 a1 m0 m1 lo hi = Some (rs1, c1) -> r_create rs1 o2 b0 b1 n0 n1 lo hi = Some (rs2, c2) ->
+  cr_lower c2 = cr_lower c1 -> cr_upper c2 = cr_upper c1 ->
+  exists snap, acc_get (rw_spread (r_rw rs2)) (cr_id c1) = Some (mkARec (cr_liq c1) snap dc0) /\
+               acc_get (rw_spread (r_rw rs2)) (cr_id c2) = Some (mkARec (cr_liq c2) snap dc0).
+Proof. exact created_together. Qed.
+Print Assumptions C08_created_together_same_snapshot.
+
+(* IDENTICAL_POSITIONS_IDENTICAL_REWARDS over histories *)
+Theorem C08_identical_positions_over_history : forall ops rs id1 id2 r q1 q2 c1 c2, RInv rs ->
+  id1 < s_next_id (r_base rs) -> id2 < s_next_id (r_base rs) ->
+  acc_get (rw_spread (r_rw rs)) id1 = Some r -> acc_get (rw_spread (r_rw rs)) id2 = Some r ->
+  hist_untouched ops id1 = true -> hist_untouched ops id2 = true ->
+  let rs' := rrun rs ops in
+  pos_get (s_pos (r_base rs')) id1 = Some q1 -> pos_get (s_pos (r_base rs')) id2 = Some q2 ->
+  ps_lower q1 = ps_lower q2 -> ps_upper q1 = ps_upper q2 ->
+  claimable_spread rs' id1 = Some c1 -> claimable_spread rs' id2 = Some c2 -> c1 = c2.
+Proof. exact identical_positions_over_history. Qed.
+Print Assumptions C08_identical_positions_over_history.
+
+(* K_TIMES_LIQUIDITY over histories *)
+Theorem C08_k_times_over_history : forall ops rs id1 idk L k snap q1 qk c1 ck d, RInv rs ->
+  id1 < s_next_id (r_base rs) -> idk < s_next_id (r_base rs) ->
+  acc_get (rw_spread (r_rw rs)) id1 = Some (mkARec L snap dc0) -> acc_get (rw_spread (r_rw rs)) idk = Some (mkARec (k * L) snap dc0) ->
+  0 <= L -> 1 <= k <= P18 ->
+  hist_untouched ops id1 = true -> hist_untouched ops idk = true ->
+  let rs' := rrun rs ops in
+  p_scaling (s_pool (r_base rs')) = P18 \/ p_scaling (s_pool (r_base rs')) = big_scaling ->
+  pos_get (s_pos (r_base rs')) id1 = Some q1 -> pos_get (s_pos (r_base rs')) idk = Some qk ->
+  ps_lower q1 = ps_lower qk -> ps_upper q1 = ps_upper qk ->
+  claimable_spread rs' id1 = Some c1 -> claimable_spread rs' idk = Some ck ->
+  -1 <= pr_sel d ck - k * pr_sel d c1 <= k.
+Proof. exact k_times_over_history. Qed.
+Print Assumptions C08_k_times_over_history.
+
+(* twins created in the same block on [-1000, 2000), then crossings, a third party's withdrawal and collect: equal records at the
+   start, untouched, and they claim the same non-zero amount at the end *)
+Example C08_identical_positions_over_history_nonvacuous :
+  let rs := rrun (rinit 0x64 0x71afd498d0000 0x2cd76fe086b93ce2f768a00b22a00000000000 0x2cd76fe086b93ce2f768a00b22a00000000000
+          [(0xc9f2c9cd04674edea40000000, 0xc9f2c9cd04674edea40000000); (0xc9f2c9cd04674edea40000000, 0xc9f2c9cd04674edea40000000);
+           (0xc9f2c9cd04674edea40000000, 0xc9f2c9cd04674edea40000000)] 0x6553f100)
+       [RBase (OCreate 0x0 0x3b9aca00 0x3b9aca00 0x0 0x0 (-0x186a0) 0x186a0);
+        RBase (OCreate 0x1 0x989680 0x989680 0x0 0x0 (-0x3e8) 0x7d0);
+        RBase (OCreate 0x2 0x989680 0x989680 0x0 0x0 (-0x3e8) 0x7d0)] in
+  let ops := [RBase (OSwapIn 0x2 false 0x1c9c380 0x1); RBase (OWithdraw 0x0 0x1 0x3e8); RBase (OSwapIn 0x2 true 0x3938700 0x1);
+              RCollectSpread 0x0 [0x1]; RBase (OTime 0x64)] in
+  (exists r, acc_get (rw_spread (r_rw rs)) 2 = Some r /\ acc_get (rw_spread (r_rw rs)) 3 = Some r) /\
+  hist_untouched ops 2 = true /\ hist_untouched ops 3 = true /\
+  exists c, claimable_spread (rrun rs ops) 2 = Some c /\ claimable_spread (rrun rs ops) 3 = Some c /\ 0 < fst c /\ 0 < snd c.
+Proof.
+  intros rs ops. let v := eval vm_compute in rs in assert (E : rs = v) by (vm_compute; reflexivity). rewrite E.
+  split; [eexists; split; vm_compute; reflexivity|]. split; [reflexivity|]. split; [reflexivity|].
+  eexists. split; [vm_compute; reflexivity|]. split; [vm_compute; reflexivity|]. split; vm_compute; reflexivity.
 Qed.
